@@ -267,7 +267,7 @@ def resEq (r : Option (UInt64 × UInt64 × UInt64 × UInt64)) (m : Option KBox) 
 def hasNaNBox (t : Tok) : Bool :=
   t.any fun s => s.length == 16 && (match parseU64 s with | some u => (keyOfBits u).isNone | none => false)
 
-def judgeLine (line : String) : String :=
+def judgeLine1 (line : String) : String :=
   let (lhs, rhs) := splitArrow (tokens line)
   if rhs.head? == some "timeout" then s!"SPEC {lhs.headD "?"} call-did-not-return-within-3s"
   else
@@ -510,6 +510,22 @@ def judgeLine (line : String) : String :=
       | none => "DIFF ext3 unparsable-input"
     | _ => "DIFF ext3 unparsable-input"
   | _ => "DIFF line unknown-line-kind"
+
+/-- `cc <line>`: the answer reported for `<line>` under concurrent callers (the first one that differed from the
+answer computed alone, else that one) is judged exactly like `<line>` — `boundsG`, `lenG`, `pointsOf`, the box
+functions are pure functions of their operands — with the class prefixed `conc-`. -/
+def judgeLine (line : String) : String :=
+  match tokens line with
+  | "cc" :: rest =>
+    let inner := " ".intercalate rest
+    let (lhs, rhs) := splitArrow rest
+    let kind := lhs.headD "?"
+    if rhs.head? == some "panic" then s!"SPEC conc-{kind} panicked-under-concurrent-callers"
+    else
+      match (judgeLine1 inner).splitOn " " with
+      | v :: cls :: rest => " ".intercalate (v :: ("conc-" ++ cls) :: rest)
+      | _ => s!"DIFF conc-{kind} unparsable-verdict"
+  | _ => judgeLine1 line
 
 end GeomV.C04
 
